@@ -440,7 +440,7 @@ fn draw_edit(r: &mut Rng, gp: &GenParams, cfg: &Config, defs: &[Def], g: &GraphS
     let present: Vec<usize> = g.present.iter().cloned().collect();
     let absent: Vec<usize> = (0..n).filter(|d| !g.present.contains(d)).collect();
     let w_absent = if gp.absent_bias { 4 } else { 2 };
-    let choice = r.weighted(&[w_absent, w_absent, 2, 2, 4, 3, if gp.p_multi > 300 { 4 } else { 2 }, 1]);
+    let choice = r.weighted(&[w_absent, w_absent, 2, 2, 4, 3, if gp.p_multi > 300 { 4 } else { 2 }, 1, 2]);
     match choice {
         0 => {
             if absent.is_empty() {
@@ -498,6 +498,14 @@ fn draw_edit(r: &mut Rng, gp: &GenParams, cfg: &Config, defs: &[Def], g: &GraphS
             } else {
                 let d = *r.pick(&multi);
                 Some(Edit::SetParts { def: d, parts: draw_parts(r, defs[d].universe.len()) })
+            }
+        }
+        8 => {
+            let bumped: Vec<usize> = (0..n).filter(|d| g.kind_of(defs, *d) == Kind::Always && g.ext.get(d).copied().unwrap_or(0) > 0).collect();
+            if bumped.is_empty() {
+                None
+            } else {
+                Some(Edit::RevertExt { def: *r.pick(&bumped) })
             }
         }
         _ => None, // pure re-evaluation
